@@ -378,7 +378,7 @@ def graph_state_gates(op):
     return out
 
 
-def program_from_ops(ops, post="computational", fallback=True, stats=None):
+def program_from_ops(ops, post="computational", fallback=True, stats=None, basis_override=None):
     """List of PennyLane operators (tape.operations of a dynamic circuit) → R-BR program.  Measurement keys are the
     ``MidMeasure`` operator objects themselves, so ``MeasurementValue.concretize(outcomes)`` works on branch dicts."""
     from . import bridge
@@ -390,9 +390,13 @@ def program_from_ops(ops, post="computational", fallback=True, stats=None):
             mv = op.meas_val
             base = op.base
             pred = (lambda oc, mv=mv: bool(mv.concretize(oc)))
-            prog.append(cond(pred, program_from_ops([base], post=post, fallback=fallback, stats=stats)))
+            prog.append(cond(pred, program_from_ops([base], post=post, fallback=fallback, stats=stats, basis_override=basis_override)))
         elif name in ("MidMeasure", "ParametricMidMeasure", "XMidMeasure", "YMidMeasure"):
-            prog.append(measure(op, op.wires[0], basis=_mcm_basis(op), reset=op.reset, postselect=op.postselect, post=post))
+            basis = _mcm_basis(op)
+            if basis_override is not None:
+                alt = basis_override(op)
+                basis = basis if alt is None else alt
+            prog.append(measure(op, op.wires[0], basis=basis, reset=op.reset, postselect=op.postselect, post=post))
         elif name == "GraphStatePrep":
             prog.extend(gate(M, w) for M, w in graph_state_gates(op))
         elif name in ("Barrier", "Snapshot", "WireCut"):
